@@ -78,3 +78,96 @@ class HandlerPlain(_Handler):
 
 
 CONTRACTS = [HandlerConv(), HandlerPlain()]
+
+
+# ------------------------------------------------------------------------------------------- FilterFactory.make_filter
+from pyvc.engine import Val as _Val, VPy as _VPy   # noqa: E402
+
+
+class MakeFilter(Contract):
+    """one handler object per filter spec: the router decides "same rule" / "same wildcard" by the IDENTITY of the filter handler, so
+    every filter that is built must be stored in the cache under its spec `<filter>(<args>)` and a later request for the same spec
+    must get that very object back - for every kind of filter (with and without a converter)."""
+    props = ('C11', 'C01')
+    file = 'ombott/router/filter_factory.py'
+    qualname = 'FilterFactory.make_filter'
+    assumptions = ('the filter constructors return (mask text, converter or None, formatter or None); re.compile is opaque',
+                   'a cached entry is a non-empty list (truthy)')
+    expected_labels = ('cache.hit_returns_the_cached_entry', 'cache.every_built_filter_is_stored_under_its_spec',
+                       'cache.built_handler_is_what_is_returned', 'none.no_filter_gives_none_none')
+
+    def pre(self, X):
+        self.no_filter = X.choose(2, 'filter given?') == 0
+        self.hit = (not self.no_filter) and X.choose(2, 'spec already cached?') == 1
+        self.kind = 'none'
+        self.filter = VStr('') if self.no_filter else X.fresh_str('filter')
+        if not self.no_filter:
+            X.assume(z3.Length(self.filter.t) > 0)
+        self.args = X.fresh_str('args')
+        self.entry = VObj('CachedEntry', {'truthy': VBool(True)})
+        self.stored = []
+        self.got_key = None
+        self.f_out = VOpaque(X.fresh(PyObj, 'f_out'), 'f_out')
+        c = self
+
+        def cache_get(X, args, kwargs):
+            c.got_key = args[1]
+            return c.entry if c.hit else NONE
+
+        def ctor(X, args, kwargs):
+            c.kind = ('no converter', 'one-argument converter', 'two-argument converter', 'converter without __code__')[
+                X.choose(4, 'kind of filter')]
+            f_in = NONE if c.kind == 'no converter' else VObj('Converter', {'truthy': VBool(True)})
+            c.f_in = f_in
+            return VTuple([X.fresh_str('mask'), f_in, c.f_out])
+        self.stubs = {'Cache.get': cache_get, 're.compile': lambda X, a, k: VObj('Mask', {})}
+        self.cache = VObj('Cache', {})
+        cls = VObj('FilterFactoryCls', {'_filter_cache': self.cache, 'filters': VObj('Filters', {'ctor': VFunc(ctor, 'ctor')})})
+        return {'cls': cls, 'filter': self.filter, 'args': self.args}
+
+    def getitem_hook(self, X, obj, key):
+        if isinstance(obj, VObj) and obj.cls == 'Filters':
+            X.prove('ctor.selected_by_the_filter_name', key.t == self.filter.t if isinstance(key, VStr) else z3.BoolVal(False))
+            return obj.fields['ctor']
+        return None
+
+    def setitem_hook(self, X, obj, key, val):
+        if obj is self.cache:
+            self.stored.append((key, val))
+            return True
+        return False
+
+    def builtin_hook(self, X, name, args, kwargs):
+        if name == 'getattr' and len(args) == 3 and isinstance(args[0], VObj) and args[0].cls == 'Converter':
+            if self.kind == 'converter without __code__':
+                return args[2]
+            return VObj('Code', {'truthy': VBool(True), 'co_argcount': VInt(1 if self.kind == 'one-argument converter' else 2)})
+        return None
+
+    def spec_key(self):
+        return z3.Concat(self.filter.t, z3.StringVal('('), self.args.t, z3.StringVal(')'))
+
+    def post(self, X, ret):
+        if self.no_filter:
+            X.prove('none.no_filter_gives_none_none', z3.BoolVal(isinstance(ret, VTuple) and len(ret.items) == 2
+                                                                 and all(isinstance(i, VNone) for i in ret.items) and not self.stored))
+            return
+        if self.hit:
+            X.prove('cache.hit_returns_the_cached_entry',
+                    z3.And(z3.BoolVal(ret is self.entry and not self.stored), self.got_key.t == self.spec_key())
+                    if isinstance(self.got_key, VStr) else z3.BoolVal(False))
+            return
+        ok = len(self.stored) == 1 and isinstance(self.stored[0][0], VStr) and isinstance(self.stored[0][1], VList_) \
+            and len(self.stored[0][1].items) == 2
+        X.prove('cache.every_built_filter_is_stored_under_its_spec',
+                z3.And(self.stored[0][0].t == self.spec_key(), z3.BoolVal(self.stored[0][1].items[1] is self.f_out)) if ok else z3.BoolVal(False))
+        same = ok and isinstance(ret, VTuple) and len(ret.items) == 2 and ret.items[0] is self.stored[0][1].items[0] \
+            and ret.items[1] is self.f_out and not isinstance(ret.items[0], VNone)
+        X.prove('cache.built_handler_is_what_is_returned', z3.BoolVal(bool(same)))
+
+    def post_raise(self, X, exc):
+        X.prove('raises.nothing', z3.BoolVal(False))
+
+
+from pyvc.engine import VList as VList_   # noqa: E402
+CONTRACTS.append(MakeFilter())
